@@ -1,7 +1,7 @@
 (* C06 — proofs about Wire/RecvModel.v: the handlers never panic outside the known classes,
    keep the invariant, and only touch the proxies of the participants a datagram speaks for. *)
 From DustDDS Require Import Base.Machine Base.Bytes Wire.WireModel Wire.WireProofs Wire.WireSetsProofs
-  Wire.WireTotalProofs Wire.RecvModel.
+  Wire.RecvModel.
 Open Scope Z_scope.
 
 Ltac unf_consts := unfold i64_max, i64_min, u32_max, FRAG_CAP in *.
@@ -13,6 +13,12 @@ Lemma add1_ok : forall site x, x < i64_max -> add1 site x = Ok (x + 1).
 Proof. intros site x H. unfold add1. destruct (Z.leb_spec (x + 1) i64_max); [reflexivity|lia]. Qed.
 Lemma sub1_ok : forall site x, i64_min < x -> sub1 site x = Ok (x - 1).
 Proof. intros site x H. unfold sub1. destruct (Z.leb_spec i64_min (x - 1)); [reflexivity|lia]. Qed.
+
+Lemma In_ziota : forall n j, 0 <= j < n -> In j (ziota n).
+Proof.
+  intros n j H. unfold ziota. apply in_map_iff. exists (Z.to_nat j). split; [lia|].
+  apply in_seq. lia.
+Qed.
 
 (* ------------------------------------------------------------------ fragments *)
 Lemma frag_weight_cons : forall f t, frag_weight (f :: t) = fr_len f + 1 + frag_weight t.
@@ -181,8 +187,8 @@ Proof.
   intros s H. unfold set_overflows in H. unfold snset_members.
   assert (Hb : forall j, 0 <= j < 0 + Z.of_nat (Z.to_nat (ss_bits s)) -> bit_set (ss_map s) j = true -> ss_base s + j < i64_max).
   { intros j Hj Hbit. destruct (Z.lt_ge_cases (ss_base s + j) i64_max); [auto|].
-    assert (X : existsb (fun i => bit_set (ss_map s) i && (i64_max <=? ss_base s + i)) (iota (ss_bits s)) = true).
-    { apply existsb_exists. exists j. split; [apply In_iota; lia|]. rewrite Hbit. cbn. apply Z.leb_le. lia. }
+    assert (X : existsb (fun i => bit_set (ss_map s) i && (i64_max <=? ss_base s + i)) (ziota (ss_bits s)) = true).
+    { apply existsb_exists. exists j. split; [apply In_ziota; lia|]. rewrite Hbit. cbn. apply Z.leb_le. lia. }
     rewrite X in H. discriminate. }
   rewrite members_from_list by (intros j Hj Hbit; specialize (Hb j Hj Hbit); lia).
   eexists; split; [reflexivity|]. apply Forall_forall. intros x Hx.
@@ -308,7 +314,7 @@ Proof.
 Qed.
 
 Lemma reader_frag_ok : forall C src wid f r, C + fr_len f + 1 <= FRAG_CAP -> reader_ok C r ->
-  0 <= fr_len f -> fr_count f <= fr_len f + 1 -> fr_sn f < i64_max ->
+  0 <= fr_len f -> 0 <= fr_count f <= fr_len f + 1 -> fr_sn f < i64_max ->
   exists r' o, reader_frag src wid f r = Ok (r', o) /\ reader_ok (C + fr_len f + 1) r'.
 Proof.
   intros C src wid f r HC H Hl Hc Hs. unfold reader_frag.
@@ -317,7 +323,7 @@ Proof.
   - destruct (upd_proxy_ok _ wp_guid (wproxy_ok C) (wproxy_ok (C + fr_len f + 1)) (src ++ wid)
                 (quiet (on_frag_proxy (sr_rel r) f)) (sr_proxies r)) as (l & o & E1 & E2 & _); [| |exact H|].
     { intros p Hp. eapply wp_weaken; [|exact Hp]. lia. }
-    { intros p _ Hp. apply quiet_ok. apply on_frag_proxy_ok; auto. repeat split; auto. }
+    { intros p _ Hp. apply quiet_ok. apply on_frag_proxy_ok; auto. destruct Hc; repeat split; auto. }
     destruct (with_proxies_ok _ r _ l o E1 E2) as (r' & F1 & F2 & _). exists r', o. auto.
 Qed.
 
@@ -391,8 +397,8 @@ Proof.
   intros s H. unfold fset_overflows in H. unfold fnset_members.
   rewrite members_from_list; [eexists; reflexivity|].
   intros j Hj Hbit. destruct (Z.le_gt_cases (fs_base s + j) u32_max); [auto|].
-  assert (X : existsb (fun i => bit_set (fs_map s) i && (u32_max <? fs_base s + i)) (iota (fs_bits s)) = true).
-  { apply existsb_exists. exists j. split; [apply In_iota; lia|]. rewrite Hbit. cbn. apply Z.ltb_lt. lia. }
+  assert (X : existsb (fun i => bit_set (fs_map s) i && (u32_max <? fs_base s + i)) (ziota (fs_bits s)) = true).
+  { apply existsb_exists. exists j. split; [apply In_ziota; lia|]. rewrite Hbit. cbn. apply Z.ltb_lt. lia. }
   rewrite X in H. discriminate.
 Qed.
 
@@ -498,7 +504,7 @@ Proof.
     { intros r Hr. apply reader_data_ok; auto; try lia. }
     rewrite E1. cbn [bind fst snd]. do 3 eexists; split; [reflexivity|auto].
   - (* DataFrag *)
-    cbn [k_sn_max k_frag_count] in *. apply Z.leb_gt in Ksn. apply Z.ltb_ge in Kfc.
+    cbn [k_sn_max k_frag_count] in *. apply Z.leb_gt in Ksn. apply orb_false4 in Kfc as [Kfc Kf0]. apply Z.ltb_ge in Kfc. apply Z.ltb_ge in Kf0.
     destruct (on_readers_ok C (C + (len payload + 1)) st
                 (reader_frag (rs_src rs) wid (mk_frag sn fstart fcount fsize dsize (len payload)))) as (st' & o & E1 & E2 & E3); [|exact HI|].
     { intros r Hr.
@@ -567,4 +573,131 @@ Proof.
   destruct (parse_message bytes) as [[h l]|e|x]; [|do 2 eexists; split; [reflexivity|]|discriminate].
   - apply handle_subs_ok; auto.
   - unfold frag_bytes; cbn. rewrite Z.add_0_r. auto.
+Qed.
+
+(* ------------------------------------------------------ sequences of datagrams *)
+Lemma total_frag_bytes_nonneg : forall ds, 0 <= total_frag_bytes ds.
+Proof.
+  induction ds as [|d t IH]; [cbn; lia|]. unfold total_frag_bytes in *. cbn [map sumZ].
+  pose proof (frag_bytes_nonneg (subs_of d)). lia.
+Qed.
+
+Theorem run_datagrams_ok : forall ds C st,
+  InvC C st -> C + total_frag_bytes ds <= FRAG_CAP -> Forall dgram_fine ds ->
+  exists st', run_datagrams st ds = Ok st' /\ InvC (C + total_frag_bytes ds) st'.
+Proof.
+  induction ds as [|d t IH]; intros C st HI HC HF; cbn [run_datagrams].
+  - eexists; split; [reflexivity|]. unfold total_frag_bytes; cbn. rewrite Z.add_0_r. exact HI.
+  - inversion HF as [|? ? [Hp Hk] Ht]; subst.
+    unfold total_frag_bytes in *. cbn [map sumZ] in *. pose proof (total_frag_bytes_nonneg t) as Hn. unfold total_frag_bytes in Hn.
+    destruct (handle_datagram_ok C st d HI) as (st1 & o & E1 & E2 & _); [lia|exact Hp|exact Hk|].
+    rewrite E1. cbn [bind fst].
+    destruct (IH (C + frag_bytes (subs_of d)) st1 E2) as (st2 & F1 & F2); [lia|exact Ht|].
+    exists st2. split; [exact F1|].
+    replace (C + (frag_bytes (subs_of d) + sumZ (map (fun d0 => frag_bytes (subs_of d0)) t)))
+      with (C + frag_bytes (subs_of d) + sumZ (map (fun d0 => frag_bytes (subs_of d0)) t)) by lia. exact F2.
+Qed.
+
+(* ------------------------------------------------------- sender-chosen work *)
+Lemma sumZ_bound : forall A (f : A -> Z) (l : list A) B, (forall x, In x l -> 0 <= f x <= B) ->
+  0 <= sumZ (map f l) <= len l * B.
+Proof.
+  intros A f l B. induction l as [|x t IH]; intros H; [cbn; lia|]. cbn [map sumZ]. rewrite len_cons.
+  pose proof (H x (or_introl eq_refl)). specialize (IH (fun y Hy => H y (or_intror Hy))). lia.
+Qed.
+
+Lemma proxy_steps_bound : forall g f l B (Q : wproxy -> Prop), 0 <= B -> Forall Q l ->
+  (forall p, Q p -> 0 <= f p <= B) -> 0 <= proxy_steps g f l <= B.
+Proof.
+  intros g f l B Q HB HQ Hf. unfold proxy_steps. destruct (find _ l) as [p|] eqn:E; [|lia].
+  apply find_In in E as [Hin _]. rewrite Forall_forall in HQ. apply Hf. auto.
+Qed.
+
+Lemma frag_sum_nonneg : forall l, Forall frag_ok l -> 0 <= frag_sum l.
+Proof.
+  induction l as [|f t IH]; intros H; [cbn; lia|]. rewrite frag_sum_cons.
+  inversion H as [|? ? Hf Ht]; subst. destruct Hf as (Hc & _). specialize (IH Ht). lia.
+Qed.
+
+Lemma reconstruct_steps_bound : forall W p s, 0 <= W -> Forall frag_ok (wp_frags p) -> frag_weight (wp_frags p) <= W ->
+  0 <= reconstruct_steps p s <= (W + 1) * (W + 1).
+Proof.
+  intros W p s HW D E. unfold reconstruct_steps.
+  destruct (find _ _) as [f0|]; [|nia]. destruct (fr_size f0 =? 0); [nia|].
+  pose proof (frag_sum_le_weight (fun f => fr_sn f =? s) (wp_frags p) D) as Hs. fold (frags_of (wp_frags p) s) in Hs.
+  pose proof (frag_sum_nonneg (frags_of (wp_frags p) s) (Forall_filter _ _ _ _ D)) as Hs0.
+  pose proof (len_le_weight _ D) as Hl. pose proof (len_nonneg _ (wp_frags p)) as Hl0.
+  destruct (_ =? _); [|nia]. nia.
+Qed.
+
+Lemma frag_steps_bound : forall C rel f p, wproxy_ok C p -> frag_ok f -> 0 <= C ->
+  0 <= frag_steps rel f p <= (C + fr_len f + 1 + 1) * (C + fr_len f + 1 + 1).
+Proof.
+  intros C rel f p H Hf HC0. unfold frag_steps, frag_pushed. rewrite (expected_ok C p H). cbn [bind].
+  match goal with |- context [if ?c then push_frag p f else p] => set (cnd := c) end.
+  assert (H1 : wproxy_ok (C + fr_len f + 1) (if cnd then push_frag p f else p)).
+  { destruct cnd; [apply push_frag_ok; auto|]. destruct Hf as (_ & _ & Hl). eapply wp_weaken; [|exact H]. lia. }
+  destruct H1 as (_ & _ & D & E). destruct Hf as (_ & _ & Hl).
+  apply reconstruct_steps_bound; auto. lia.
+Qed.
+
+Definition step_cap (C : Z) : Z := Z.max GAP_LIMIT ((C + 1) * (C + 1)).
+Lemma step_cap_mono : forall a b, 0 <= a <= b -> step_cap a <= step_cap b.
+Proof. intros a b H. unfold step_cap. assert ((a + 1) * (a + 1) <= (b + 1) * (b + 1)) by nia. lia. Qed.
+Lemma step_cap_nonneg : forall a, 0 <= step_cap a.
+Proof. intros a. unfold step_cap, GAP_LIMIT. lia. Qed.
+
+Lemma sub_steps_bound : forall C rs st m, 0 <= C -> InvC C st -> known_sub m = false ->
+  0 <= sub_steps rs st m <= len (ps_readers st) * step_cap (C + frag_bytes_sub m).
+Proof.
+  intros C rs st m HC0 [A _] HK. apply known_sub_false in HK. destruct HK as (_ & _ & _ & _ & _ & _ & Kgr & Kfc).
+  pose proof (len_nonneg _ (ps_readers st)) as Hl0.
+  destruct m; cbn [sub_steps frag_bytes_sub]; try (pose proof (step_cap_nonneg (C + 0)); nia).
+  - (* DataFrag *)
+    cbn [k_frag_count] in Kfc. apply orb_false4 in Kfc as [Kfc Kf0]. apply Z.ltb_ge in Kfc. apply Z.ltb_ge in Kf0.
+    destruct (fsize =? 0) eqn:Ez; [pose proof (step_cap_nonneg (C + (len payload + 1))); nia|].
+    apply sumZ_bound. intros r Hr. rewrite Forall_forall in A. specialize (A r Hr).
+    apply (proxy_steps_bound _ _ _ _ (wproxy_ok C)); [apply step_cap_nonneg|exact A|].
+    intros p Hp. pose proof (len_nonneg _ payload) as Hpl.
+    pose proof (frag_steps_bound C (sr_rel r) (mk_frag sn fstart fcount fsize dsize (len payload)) p Hp) as Hb.
+    cbn [fr_len] in Hb. destruct Hb as [Hb1 Hb2]; [repeat split; cbn [fr_count fr_len fr_size]; try lia; apply Z.eqb_neq; exact Ez|exact HC0|].
+    split; [exact Hb1|]. unfold step_cap. replace (C + (len payload + 1) + 1) with (C + len payload + 1 + 1) by lia. lia.
+  - (* Gap *)
+    cbn [k_gap_range] in Kgr. apply Z.ltb_ge in Kgr.
+    apply sumZ_bound. intros r Hr. rewrite Forall_forall in A. specialize (A r Hr).
+    apply (proxy_steps_bound _ _ _ _ (wproxy_ok C)); [apply step_cap_nonneg|exact A|].
+    intros p _. unfold gap_steps, step_cap. rewrite Z.add_0_r. lia.
+Qed.
+
+Lemma subs_steps_bound : forall l C rs st, 0 <= C ->
+  C + frag_bytes l <= FRAG_CAP -> InvC C st -> existsb known_sub l = false ->
+  0 <= subs_steps rs st l <= len l * len (ps_readers st) * step_cap (C + frag_bytes l).
+Proof.
+  induction l as [|m t IH]; intros C rs st HC0 HC HI HK; cbn [subs_steps]; [cbn; lia|].
+  cbn [existsb] in HK. apply orb_false4 in HK as [K1 K2].
+  unfold frag_bytes in *. cbn [map sumZ] in *. pose proof (frag_bytes_nonneg t) as Hn. unfold frag_bytes in Hn.
+  assert (Hm0 : 0 <= frag_bytes_sub m) by (destruct m; cbn; try lia; pose proof (len_nonneg _ payload); lia).
+  pose proof (sub_steps_bound C rs st m HC0 HI K1) as Hs.
+  destruct (handle_sub_ok C rs st m) as (rs1 & st1 & o & E1 & E2 & E3); [lia|exact HI|exact K1|].
+  rewrite E1. specialize (IH (C + frag_bytes_sub m) rs1 st1 ltac:(lia) ltac:(unfold frag_bytes; lia) E2 K2).
+  unfold frag_bytes in IH. rewrite len_cons.
+  assert (Hr : len (ps_readers st1) = len (ps_readers st)) by (unfold len; rewrite E3; reflexivity). rewrite Hr in IH.
+  set (S1 := sumZ (map frag_bytes_sub t)) in *.
+  pose proof (step_cap_mono (C + frag_bytes_sub m) (C + (frag_bytes_sub m + S1)) ltac:(lia)) as M1.
+  replace (C + frag_bytes_sub m + S1) with (C + (frag_bytes_sub m + S1)) in IH by lia.
+  pose proof (len_nonneg _ (ps_readers st)) as Hl0. pose proof (len_nonneg _ t) as Ht0.
+  pose proof (step_cap_nonneg (C + (frag_bytes_sub m + S1))) as Hc0.
+  nia.
+Qed.
+
+Theorem datagram_steps_bound : forall C st bytes, 0 <= C ->
+  InvC C st -> C + frag_bytes (subs_of bytes) <= FRAG_CAP -> C06_known_dgram bytes = false ->
+  0 <= datagram_steps st bytes <=
+  steps_bound (len (subs_of bytes)) (len (ps_readers st)) (C + frag_bytes (subs_of bytes)).
+Proof.
+  intros C st bytes HC0 HI HC HK. unfold datagram_steps, C06_known_dgram, subs_of, steps_bound in *.
+  destruct (parse_message bytes) as [[h l]|e|x].
+  - apply subs_steps_bound; auto.
+  - cbn. pose proof (len_nonneg _ (ps_readers st)). unfold GAP_LIMIT. lia.
+  - cbn. pose proof (len_nonneg _ (ps_readers st)). unfold GAP_LIMIT. lia.
 Qed.
